@@ -222,7 +222,7 @@ fn write_evidence(a: &CheckArgs, p: &PropSpec, st: &Stats, wall: f64, replay: Op
         "coverage": {
             "evaluations": st.runs,
             "distinct_nontrivial": st.nontrivial.len(),
-            "rule": format!("one evaluation = one simulated run of a seeded program of families {:?} under a seeded schedule; distinct = distinct (program hash, history hash) pairs; {}", p.families, p.rule),
+            "rule": format!("one evaluation = one simulated run of a seeded program under a seeded schedule; 85% of the runs are drawn from the families {:?} (weights), 15% uniformly from all nine families (every oracle runs on every run); distinct = distinct (program hash, history hash) pairs; {}", p.families, p.rule),
             "samples": st.samples,
             "runs_per_hour": if wall > 0.0 { (st.runs as f64 / wall * 3600.0) as u64 } else { 0 },
             "seed_first_run_index": 0,
